@@ -238,7 +238,7 @@ class Sym:
             if self.be.is_term(n):
                 out = []
                 for c in range(self.unroll + 1):
-                    s = st.fork(self.be.cmp('eq', n, c))
+                    s = st.fork(self.be.cmp('eq', n, c) if c else self.be.cmp('le', n, 0))      # range(n) is empty for n <= 0
                     if self._feasible(s):
                         out.extend(self._unrolled(node, s, c))
                 over = st.fork(self.be.cmp('gt', n, self.unroll))
@@ -627,11 +627,35 @@ class Z3Real:
     def round_half_even(self, sym, st, x, k):
         """python round(x, k) on a real: q = nearest integer to x*10^k, ties to even; returns the Int term q."""
         z3 = self.z3
+        y = z3.simplify(self.real(x) * _pow10(k) if k >= 0 else self.real(x) / _pow10(-k))
+        yi = self._as_int(y)
+        if yi is not None:
+            return yi                     # an integer-valued linear form: nothing to round
         q = sym.new('round', 'int')
-        y = self.real(x) * _pow10(k) if k >= 0 else self.real(x) / _pow10(-k)
         st.assumes += [2 * (y - z3.ToReal(q)) <= 1, 2 * (z3.ToReal(q) - y) <= 1,
                        z3.Implies(z3.Or(2 * (y - z3.ToReal(q)) == 1, 2 * (z3.ToReal(q) - y) == 1), q % 2 == 0)]
         return q
+
+    def _as_int(self, y):
+        """Int term equal to the Real term y when y is syntactically integer-valued (sums/products of to_real(int) and
+        integer constants), else None."""
+        z3 = self.z3
+        if z3.is_app_of(y, z3.Z3_OP_TO_REAL):
+            return y.arg(0)
+        if z3.is_rational_value(y):
+            return z3.IntVal(y.numerator_as_long()) if y.denominator_as_long() == 1 else None
+        if z3.is_add(y) or z3.is_mul(y) or (z3.is_app_of(y, z3.Z3_OP_UMINUS)) or z3.is_sub(y):
+            kids = [self._as_int(ch) for ch in y.children()]
+            if any(k is None for k in kids):
+                return None
+            if z3.is_add(y):
+                return z3.Sum(kids)
+            if z3.is_mul(y):
+                return z3.Product(kids)
+            if z3.is_sub(y):
+                return kids[0] - z3.Sum(kids[1:]) if len(kids) > 1 else -kids[0]
+            return -kids[0]
+        return None
 
     def builtin(self, sym, st, name, args):
         z3 = self.z3
@@ -816,12 +840,20 @@ class SymChar:
         raise Unsupported('char comparison')
 
 
+def _shr10(sym, base, k):
+    """base // 10^k (k concrete >= 0)."""
+    return base if k == 0 else sym.arith('floordiv', base, _pow10(k))
+
+
 class Head:
-    """Text before the '.', sign included: `neg` bool, `n` digits (concrete), value `ip` (Int term or int)."""
+    """Text before the '.', sign included: `neg` bool, `n` digits (concrete); the digits are `base // 10^shift`."""
     pytype = 'str'
 
-    def __init__(self, neg, n, ip):
-        self.neg, self.n, self.ip = neg, n, ip
+    def __init__(self, neg, n, base, shift=0, zero=None):
+        self.neg, self.n, self.base, self.shift, self.zero = neg, n, base, shift, zero     # zero: is the text '0'? (None: open)
+
+    def ip(self, sym):
+        return _shr10(sym, self.base, self.shift)
 
     def sym_len(self, sym, st):
         return self.n + (1 if self.neg else 0)
@@ -840,38 +872,42 @@ class Head:
         raise Unsupported(f'{item!r} in Head')
 
     def to_numstr(self):
-        return NumStr(self.neg, self.n, 0, False, self.ip)
+        return NumStr(self.neg, self.n, 0, False, self.base, self.shift, self.zero)
 
     def m_lstrip(self, sym, st, chars=None):
         if chars is None:
             return self
         h = self
         if '-' in chars and h.neg:
-            h = Head(False, h.n, h.ip)
-        if '0' in chars and not h.neg:
-            if sym.be.is_term(h.ip):
-                if h.n == 1:
-                    return Multi([(sym.be.cmp('eq', h.ip, 0), Head(False, 0, 0)), (sym.be.cmp('ne', h.ip, 0), h)])
-                return h      # canonical digit strings of >= 2 digits have no leading zero (see NumStr invariants)
-            if h.ip == 0:
+            h = Head(False, h.n, h.base, h.shift, h.zero)
+        if '0' in chars and not h.neg and h.n == 1:
+            ip = h.ip(sym)
+            if h.zero is not None:
+                return Head(False, 0, 0) if h.zero else h
+            if sym.be.is_term(ip):
+                return Multi([(sym.be.cmp('eq', ip, 0), Head(False, 0, 0)), (sym.be.cmp('ne', ip, 0), h)])
+            if ip == 0:
                 return Head(False, 0, 0)
-        return h
+        return h      # digit strings of >= 2 digits have no leading zero (NumStr invariant)
 
     def m_strip(self, sym, st, chars=None):
         return self.m_lstrip(sym, st, chars)
 
     def m_replace(self, sym, st, old, new):
         if old == '-' and new == '':
-            return Head(False, self.n, self.ip)
+            return Head(False, self.n, self.base, self.shift)
         raise Unsupported('Head.replace')
 
 
 class Tail:
-    """Text after the '.': `n` digits (concrete), value `fv` (Int term or int) - i.e. the digits read as an integer."""
+    """Text after the '.': `n` digits (concrete) = (base // 10^shift) mod 10^n."""
     pytype = 'str'
 
-    def __init__(self, n, fv):
-        self.n, self.fv = n, fv
+    def __init__(self, n, base, shift=0):
+        self.n, self.base, self.shift = n, base, shift
+
+    def fv(self, sym):
+        return sym.arith('mod', _shr10(sym, self.base, self.shift), _pow10(self.n)) if self.n else 0
 
     def sym_len(self, sym, st):
         return self.n
@@ -888,27 +924,33 @@ class Tail:
         if isinstance(idx, slice) and idx.start is None and isinstance(idx.stop, int):
             k = idx.stop
             new = min(k, self.n) if k >= 0 else max(self.n + k, 0)
-            if new == self.n:
-                return self
-            return Tail(new, sym.arith('floordiv', self.fv, _pow10(self.n - new)))
+            return self if new == self.n else Tail(new, self.base, self.shift + (self.n - new))
         raise Unsupported('Tail subscript')
 
 
 class NumStr:
-    """sign, `int_len` integer digits, optional '.', `frac_len` fraction digits; `scaled` = all digits read as one integer.
+    """sign, `int_len` integer digits, optional '.', `frac_len` fraction digits (all concrete); all digits read as one integer
+    are `base // 10^shift` (base: Int term or int).
 
     Invariant kept by the constructors: the integer part has no superfluous leading zero (it is '0' or starts with 1-9)."""
     pytype = 'str'
 
-    def __init__(self, neg, int_len, frac_len, has_point, scaled):
-        self.neg, self.int_len, self.frac_len, self.has_point, self.scaled = neg, int_len, frac_len, has_point, scaled
+    def __init__(self, neg, int_len, frac_len, has_point, base, shift=0, int_zero=None):
+        self.neg, self.int_len, self.frac_len, self.has_point, self.base, self.shift = neg, int_len, frac_len, has_point, base, shift
+        self.int_zero = int_zero          # is the integer part the single digit '0'? True / False / None (not known)
+
+    def scaled(self, sym):
+        return _shr10(sym, self.base, self.shift)
 
     @staticmethod
     def combine(sym, head, tail):
-        return NumStr(head.neg, head.n, tail.n, True, sym.arith('add', sym.arith('mul', head.ip, _pow10(tail.n)), tail.fv))
+        if head.base is tail.base and head.shift == tail.shift + tail.n:
+            return NumStr(head.neg, head.n, tail.n, True, head.base, tail.shift, head.zero)  # same digits, possibly fewer
+        return NumStr(head.neg, head.n, tail.n, True,
+                      sym.arith('add', sym.arith('mul', head.ip(sym), _pow10(tail.n)), tail.fv(sym)))
 
-    def value(self, be):
-        v = be.real(self.scaled) / _pow10(self.frac_len)
+    def value(self, sym):
+        v = sym.be.real(self.scaled(sym)) / _pow10(self.frac_len)
         return -v if self.neg else v
 
     def sym_contains(self, sym, item):
@@ -927,29 +969,29 @@ class NumStr:
     def m_split(self, sym, st, sep):
         if sep != '.' or not self.has_point:
             raise Unsupported('NumStr.split')
-        p = _pow10(self.frac_len)
-        return (Head(self.neg, self.int_len, sym.arith('floordiv', self.scaled, p) if self.frac_len else self.scaled),
-                Tail(self.frac_len, sym.arith('mod', self.scaled, p) if self.frac_len else 0))
+        return (Head(self.neg, self.int_len, self.base, self.shift + self.frac_len, self.int_zero),
+                Tail(self.frac_len, self.base, self.shift))
 
     def sym_getitem(self, sym, idx):
         if idx == -1:
             if self.has_point and self.frac_len == 0:
                 return '.'
-            return SymChar(sym.arith('mod', self.scaled, 10))
+            return SymChar(sym.arith('mod', self.scaled(sym), 10))
         if isinstance(idx, slice) and idx.start is None and idx.stop == -1:
             if self.has_point and self.frac_len == 0:
-                return NumStr(self.neg, self.int_len, 0, False, self.scaled)
+                return NumStr(self.neg, self.int_len, 0, False, self.base, self.shift, self.int_zero)
             if self.frac_len > 0:
-                return NumStr(self.neg, self.int_len, self.frac_len - 1, True, sym.arith('floordiv', self.scaled, 10))
+                return NumStr(self.neg, self.int_len, self.frac_len - 1, True, self.base, self.shift + 1, self.int_zero)
             raise Unsupported('dropping an integer digit')
         raise Unsupported('NumStr subscript')
 
     def sym_eq(self, sym, other):
         raise Unsupported('NumStr comparison')
 
-    def concrete(self, evaluate):
+    def concrete(self, sym, evaluate):
         """The actual string for concrete digit values; `evaluate(term)` gives the value of a term (translator validation)."""
-        sc = evaluate(self.scaled) if not isinstance(self.scaled, int) else self.scaled
+        sc = self.scaled(sym)
+        sc = evaluate(sc) if not isinstance(sc, int) else sc
         if not isinstance(sc, int):
             raise Unsupported('NumStr not determined')
         digits = str(sc).zfill(self.int_len + self.frac_len)
@@ -999,8 +1041,8 @@ class SymDecimal:
             # python: format(Decimal('0E+2'), 'f') == '0' only for coefficient 0 ... the obligation excludes c == 0 with e > 0
             return NumStr(self.neg, nd + e, 0, False, sym.arith('mul', self.c, _pow10(e)))
         if nd + e > 0:
-            return NumStr(self.neg, nd + e, -e, True, self.c)
-        return NumStr(self.neg, 1, -e, True, self.c)
+            return NumStr(self.neg, nd + e, -e, True, self.c, 0, False)     # nd >= 2 here: the leading digit is not 0
+        return NumStr(self.neg, 1, -e, True, self.c, 0, True)
 
     def is_sci(self):
         """Documented rule of Decimal.__str__: scientific iff exponent > 0 or adjusted exponent < -6."""
@@ -1014,11 +1056,14 @@ class SymDecimal:
         an integer below 2^53 (over-approximation: which values are exactly representable is otherwise left open)."""
         be, z3 = sym.be, sym.be.z3
         v = self.value(be)
+        if self.e >= 0 and (_pow10(self.nd) - 1) * 5 ** self.e < 2 ** 53:
+            return v                      # c * 10^e = (c * 5^e) * 2^e with c * 5^e < 2^53: exactly representable
         err = sym.new('float_err', 'real')
         av = -v if self.neg else v
         st.assumes += [err <= av * be.val(Fraction(1, 2 ** 53)), -err <= av * be.val(Fraction(1, 2 ** 53))]
         if self.e >= 0:
-            st.assumes.append(z3.Implies(av <= 2 ** 53, err == 0))
+            # c * 10^e = (c * 5^e) * 2^e is exactly representable when c * 5^e < 2^53
+            st.assumes.append(z3.Implies(be.val(self.c) * (5 ** self.e) < 2 ** 53, err == 0))
         st.notes.append('float(Decimal) modelled as nearest-double over-approximation')
         return v + err
 
